@@ -21,11 +21,14 @@
 //!
 //! The compiled path must be indistinguishable from `evaluate_expr` through
 //! every consumer:
-//! - arithmetic and comparisons are null-strict, matching the interpreter's
-//!   arrow kernels (`boolean::and`, not Kleene). Because every operator in
-//!   the subset is null-strict, a result row is valid iff EVERY referenced
-//!   column is valid at that row — so validity is computed once as the AND
-//!   of leaf validities, exactly what kernel-by-kernel propagation yields.
+//! - arithmetic and comparisons are null-strict, so on a row where EVERY
+//!   referenced column is valid the result is valid and the register program
+//!   computes it. AND / OR / BETWEEN follow SQL three-valued (Kleene) logic in
+//!   the interpreter (`NULL OR TRUE` is TRUE), which leaf validity alone
+//!   cannot express — so rows with a NULL in any referenced column are
+//!   re-evaluated by the interpreter itself (`evaluate_expr` on just those
+//!   rows) and patched into the mask. NULL rows are the rare case; the fused
+//!   loop still covers every all-valid row.
 //! - f64 division by zero produces ±inf/NaN in both paths (never null).
 //! - numeric comparisons require identical arrow types on both sides;
 //!   anything the interpreter would coerce falls back to the interpreter.
@@ -164,6 +167,8 @@ pub struct CompiledPredicate {
     out: u8,
     f_regs: usize,
     m_regs: usize,
+    /// The source predicate: rows with a NULL input take the interpreter.
+    expr: Expr,
 }
 
 /// Is compilation enabled? `QE_COMPILE=0` restores the interpreter.
@@ -448,6 +453,7 @@ impl CompiledPredicate {
             out,
             f_regs: c.next_f as usize,
             m_regs: c.next_m as usize,
+            expr: expr.clone(),
         })
     }
 
@@ -516,6 +522,30 @@ impl CompiledPredicate {
                 }
             }
             start += len;
+        }
+
+        // Rows with a NULL in some referenced column: the interpreter decides
+        // both value and validity (three-valued AND/OR can be TRUE or FALSE
+        // there), so the compiled mask stays bit-identical to `evaluate_expr`.
+        if let Some(vb) = valid_bits.as_mut() {
+            let null_rows: Vec<u32> = (0..n).filter(|&i| !vb[i]).map(|i| i as u32).collect();
+            if !null_rows.is_empty() {
+                let idx = arrow::array::UInt32Array::from(null_rows.clone());
+                let cols: Option<Vec<arrow::array::ArrayRef>> = batch
+                    .columns()
+                    .iter()
+                    .map(|c| arrow::compute::take(c.as_ref(), &idx, None).ok())
+                    .collect();
+                let sub = RecordBatch::try_new(batch.schema(), cols?).ok()?;
+                let interp =
+                    crate::physical::operators::evaluate_expr(&sub, &self.expr).ok()?;
+                let interp = interp.as_any().downcast_ref::<BooleanArray>()?;
+                for (k, &row) in null_rows.iter().enumerate() {
+                    let row = row as usize;
+                    vb[row] = interp.is_valid(k);
+                    out_builder.set_bit(row, interp.is_valid(k) && interp.value(k));
+                }
+            }
         }
 
         let values = arrow::buffer::BooleanBuffer::new(out_builder.finish().into_inner(), 0, n);
